@@ -241,6 +241,10 @@ impl TypeEntryEnum {
         deny_unknown_fields: bool,
         schema: Schema,
     ) -> TypeEntry {
+        #[cfg(typify_verif)]
+        crate::verif::event("tagging", || {
+            serde_json::json!({ "tag": format!("{:?}", tag_type), "variants": variants.len() })
+        });
         // Let's find some decent names for variants. We first try the simple
         // sanitization.
         variants.iter_mut().for_each(|variant| {
